@@ -1,6 +1,7 @@
 use crate::driver::Meta;
 use crate::proto::Ctx;
 
+pub mod allops;
 pub mod boolops;
 pub mod c15x;
 
